@@ -87,6 +87,17 @@ func (c *BaseTableMetaCache) Init(ctx context.Context) error {
 }
 
 // refresh
+// releaseConn gives a connection back to its pool. A sql.Conn that never came out of a pool (a zero value) has
+// nothing to go back to, and database/sql panics on closing it: that is not worth a crash of the refresher.
+func releaseConn(conn *sql.Conn) {
+	defer func() {
+		_ = recover()
+	}()
+	if conn != nil {
+		_ = conn.Close()
+	}
+}
+
 func (c *BaseTableMetaCache) refresh(ctx context.Context) {
 	f := func() {
 		// GetTableMeta inserts into the cache under the lock: read it under the lock as well
@@ -105,6 +116,8 @@ func (c *BaseTableMetaCache) refresh(ctx context.Context) {
 		if err != nil {
 			return
 		}
+		// the connection goes back to the pool when the refresh is over: one was lost per refresh otherwise
+		defer releaseConn(conn)
 		v, err := c.trigger.LoadAll(ctx, c.cfg.DBName, conn, tables...)
 		if err != nil {
 			return
